@@ -39,6 +39,7 @@ type kase struct {
 	advAsleep   bool // the last external addition came while Run was blocked on checkBlocks or between its height read and lock section ...
 	sigAfterAdv bool // ... and a Put signalled since then
 	staleInsert bool // a producer with a stale height got an index past its window check that the chain had passed
+	slotReuse   bool // a Put went into the slot of the element Run holds between its two lock sections (same slot, higher index)
 	ahead   bool
 	nextTag int
 	trace   []string
@@ -76,6 +77,10 @@ func (c *kase) doPut(idx uint32, ok bool, hr uint32) {
 	c.r.put(e, hr)
 	if !c.r.disc && idx > hr && idx <= hr+uint32(c.cap) {
 		c.sigAfterAdv = true // queue.go:196-201: every Put that gets this far signals
+		if (c.r.st == pHolding || c.r.st == pAdded) && c.r.held != nil && idx > c.r.held.idx && (idx-c.r.held.idx)%uint32(c.cap) == 0 {
+			c.slotReuse = true
+			c.o.Count("put:into-the-slot-run-holds")
+		}
 		if idx <= c.r.height() {
 			c.staleInsert = true
 			c.o.Count("put:stale-index-past-the-check")
@@ -176,9 +181,15 @@ func (c *kase) finalChecks() {
 			_, left := r.q.LastQueued()
 			if left != c.cap-occ {
 				c.o.Count("final:len-drift")
-				key := "len-drift-fresh"
-				if c.staleInsert || c.hasAdv {
-					key = "len-drift"
+				// 3d50aab: `len` must not exceed the occupied slots any more (queue_len_never_overcounts); what is
+				// left is the under-count when Run's second lock section finds its slot re-used or cleaned
+				// (queue_len_undercount_witness): known inside that class only
+				key := "len-drift"
+				if left > c.cap-occ {
+					key = "len-undercount-fresh"
+					if c.slotReuse || c.hasAdv || c.staleInsert {
+						key = "len-undercount"
+					}
 				}
 				c.o.Fail(key, c.k, "Run blocked, %d of %d slots occupied, LastQueued reports %d left; schedule: %s",
 					occ, c.cap, left, strings.Join(c.trace, "; "))
